@@ -160,7 +160,7 @@ def finalize(report, tier, seed, wall, meta, out=print):
                                                                  o.key, o.loc, (o.witness or o.how or "")[:200]))
         else:
             new.append(o)
-    rdir = os.path.join(VERIF, "replay")
+    rdir = os.path.join(os.environ.get("SA_OUT_DIR", VERIF), "replay")
     seen_keys = set()
     uniq = []
     for o in new:
@@ -217,7 +217,7 @@ def finalize(report, tier, seed, wall, meta, out=print):
         "wall_s": round(wall, 3),
         "violations": len(new),
     }
-    edir = os.path.join(VERIF, "evidence")
+    edir = os.path.join(os.environ.get("SA_OUT_DIR", VERIF), "evidence")
     os.makedirs(edir, exist_ok=True)
     with open(os.path.join(edir, report.pid + ".json"), "w") as fh:
         json.dump(ev, fh, indent=1, default=str)
